@@ -203,6 +203,10 @@ def run_sequence_fast(seq, acc, init_auto=0):
         acc.count(transitions=1)
         try:
             got = apply_impl(clock, op)
+        except sched.LockTimeout:
+            acc.violation("C19/seq/never-completes/%s" % op[0], "operation %r does not complete after %r (the clock's lock is still held)" % (op, seq[:i]),
+                          {"kind": "seq", "seq": seq[:i + 1]}, py=_py_seq(seq[:i + 1]))
+            return ("viol",)
         except (ValueError, OverflowError) as e:
             if exp_raise:
                 continue
@@ -228,6 +232,10 @@ def run_sequence_fast(seq, acc, init_auto=0):
     # final observable state must equal the model's too
     try:
         fin = (ins_ns(clock.get_current_instant()) if MIN_NS <= st[0] + st[1] <= MAX_NS else None, clock.auto_advance.to_nanoseconds())
+    except sched.LockTimeout:
+        acc.violation("C19/seq/never-completes/final-read", "a read does not complete after %r (the clock's lock is still held)" % (seq,),
+                      {"kind": "seq", "seq": seq}, py=_py_seq(seq))
+        return ("viol",)
     except (ValueError, OverflowError) as e:
         acc.violation("C19/seq/final-read-raises", "after %r a read raised %r although the model stays inside the Instant range" % (seq, e),
                       {"kind": "seq", "seq": seq}, py=_py_seq(seq))
@@ -514,9 +522,9 @@ def run(ctx):
         two += [(("read",), ("advance_seconds",)), (("advance_seconds",), ("advance",))]
     for t in two:
         harnesses.append((t, 2, True, 20000 if tier == "quick" else 200000))
-    three = [(("read",), ("read",), ("read",)), (("read",), ("read",), ("advance",))]
+    three = [(("read",), ("read",), ("read",)), (("read",), ("read",), ("advance",)), (("read",), ("reset",), ("read",))]
     for t in three:
-        harnesses.append((t, 1 if tier == "quick" else 2, tier != "quick", 20000 if tier == "quick" else 150000))
+        harnesses.append((t, 2, True, 4000 if tier == "quick" else 150000))
     for a in pmap(_thread_harness, harnesses):
         ctx.merge_part("threads", a)
     # 4. zoned + system
